@@ -15,7 +15,7 @@ func init() {
 		run: runC01,
 		explanation: "Decided (structural, for every dataset, expression tree, writer and open mode): " +
 			"C01.codec — writers and readers of the bitmap key, the row counter and the big writer's temp key agree on byte order, width and offsets; C01.keyflow — the bitmap of (column, value) is stored and looked up under the same function of the pair: both writers record a row under the index schema.add returns for the pair, schema.add yields getValueIndex(column, value), and an equality test looks up getValueIndex(its column, its value); " +
-			"C01.universe — NOT complements with a roaring Flip over [0, Index.rowCount) where that field is assigned only by the open function from the decoded row-counter item, and both writers persist their own row counter (one per AddRow call, so rows without columns are counted); " +
+			"C01.universe — NOT complements with a roaring Flip over [0, Index.rowCount) where that field is assigned only by the open function from the decoded row-counter item (if the field sits in a struct that the Index holds by value and shares with the writers, only stores into an Index's struct count, including those of a method of that struct called on an Index), and both writers persist their own row counter (one per AddRow call, so rows without columns are counted); " +
 			"C01.unknowncol — every lookup of a column in the schema during execution returns an error on the not-found branch (no silent empty result), and the equality test checks the column before consulting the cache; " +
 			"C01.nilbitmap — a bitmap obtained for a value that may not exist in the data (key computed from the query) is nil-guarded before any roaring operation; " +
 			"C01.opmap — AND evaluates every operand in order and intersects exactly those results (the operand loop is left only through its header or with an error: no successful return or break-to-return before all operands were evaluated, which would lose an unknown-column error of a later operand), OR unites them, NOT flips its operand's result; " +
@@ -238,13 +238,15 @@ func universeRule(c *Ctx, rule string) {
 		k, isK := constInt(lo)
 		okLo := isK && k == 0
 		hb, ho := lin(hi)
-		okHi := ho == 0 && srcField(hb) == rows
+		// (the Index's own counter: with the counter in a struct the Index shares with the writers — an embedded header — the
+		// field must be selected from an Index)
+		okHi := ho == 0 && srcField(hb) == rows && srcHolder(hb) == c.a.IndexT
 		// an accessor method that returns the field
 		if !okHi && ho == 0 {
 			if _, callee, vals, ok := resultOrigins(c.w, hb); ok && callee.Signature.Recv() != nil && namedOf(callee.Signature.Recv().Type()) == c.a.IndexT {
 				all := len(vals) > 0
 				for _, rv := range vals {
-					if srcField(peelConv(rv)) != rows {
+					if srcField(peelConv(rv)) != rows || srcHolder(peelConv(rv)) != c.a.IndexT {
 						all = false
 					}
 				}
@@ -279,6 +281,37 @@ func universeRule(c *Ctx, rule string) {
 			}
 			fa, ok := st.Addr.(*ssa.FieldAddr)
 			if !ok || fieldOf(fa.X.Type(), fa.Field) != rows {
+				return
+			}
+			// whose row count: the field may sit in a struct that the writers hold as well (an embedded header). A store into
+			// an Index's is judged below; a writer's own counter is C18's business; a store in a method of the nested struct
+			// (`func (h *header) rowAdded()`) is a store into the Index's row count exactly if the method is called on an
+			// Index's struct somewhere — outside the open function, or with anything but the decoded item, that is reported.
+			if hT := holderType(fa); hT != c.a.IndexT {
+				if p := nestedParam(fa, c.a.IndexT); p != nil {
+					key := safeFname(fn) + ": row count"
+					if c.usedAsValue(fn) {
+						c.r.undecided(rule, key, safeFname(fn)+" assigns the row count of the struct it is called on and is used as a function value: whether it runs on an Index is not followed", c.w.ipos(i))
+						return
+					}
+					for _, s := range c.bindingSites(fn, p) {
+						switch {
+						case s.T == c.a.IndexT:
+							nSt++
+							c.r.bad(rule, key, "the index's row count is assigned by "+safeFname(fn)+", called on the Index by "+safeFname(s.in)+": it is assigned from something other than the decoded row-counter item, or outside the open function", []string{c.w.ipos(s.at), c.w.ipos(i)})
+						case s.T == nil:
+							c.r.undecided(rule, key, safeFname(fn)+" assigns the row count of the "+typeString(p.Type())+" it is called on; at this call that is not the struct held by a writer or the Index: whether an Index's row count changes is not followed", c.w.ipos(s.at))
+						}
+					}
+					return
+				}
+				if c.a.isRowsHolder(hT) {
+					return // a writer's counter
+				}
+				if k, isK := constInt(st.Val); isK && k == 0 {
+					return // explicit zero initialisation of a struct value
+				}
+				c.r.undecided(rule, safeFname(fn)+": row count", "the row count of a "+typeString(fieldHolder(fa).Type())+" that is not identified as part of the Index or of a writer is assigned: if it becomes the Index's, NOT complements within the wrong universe", c.w.ipos(i))
 				return
 			}
 			nSt++
@@ -934,9 +967,26 @@ func elementLoop(c *Ctx, fn *ssa.Function, v ssa.Value, isSrc func(ssa.Value) bo
 
 // elementLoopX: single = the per-element call has one result (its value is collected) instead of (value, error).
 func elementLoopX(c *Ctx, fn *ssa.Function, v ssa.Value, isSrc func(ssa.Value) bool, elemCall func(*ssa.Call) (ssa.Value, bool), depth int, single bool) (bool, string) {
+	return elementLoopF(c, fn, v, isSrc, elemCall, depth, single, nil)
+}
+
+// elementLoopF is elementLoopX with the binding of function-typed parameters: the collecting loop may live in a *map
+// helper* — a module function, possibly an instance of a generic one such as mapSlice[T, U any](xs []T, f func(T) U) []U —
+// that makes the per-element call through its function parameter (`out = append(out, f(x))`). fnOf resolves a
+// function-typed parameter of fn to the function the caller passed (nil at the top level, where only function values
+// written in fn itself resolve). The helper's body is checked exactly like a hand-written loop (whole list, in order,
+// nothing skipped), and the function passed must be a *per-element function* (perElemFunc): a method expression
+// `Expression.cacheKey` (an ssa thunk that invokes the method on its first parameter), a function literal
+// `func(e Expression) uint64 { return e.cacheKey() }` or a named function of that shape. Mapping another method, a
+// literal that returns something else, a helper that filters, or a re-sliced operand list are still reported.
+func elementLoopF(c *Ctx, fn *ssa.Function, v ssa.Value, isSrc func(ssa.Value) bool, elemCall func(*ssa.Call) (ssa.Value, bool), depth int, single bool, fnOf func(ssa.Value) *ssa.Function) (bool, string) {
 	if depth > 2 {
 		return false, "operand collection is nested too deep in helpers"
 	}
+	// the source is the operand list as a whole: path() looks through re-slicing, so xs[1:] or xs[:n] would otherwise
+	// pass for xs although the loop over it (from its first to its last element) leaves operands of xs out
+	whole := isSrc
+	isSrc = func(x ssa.Value) bool { return whole(x) && !partOfList(x) }
 	if call, callee, vals, ok := resultOrigins(c.w, v); ok {
 		// which parameter receives the source slice?
 		var srcParam ssa.Value
@@ -946,13 +996,26 @@ func elementLoopX(c *Ctx, fn *ssa.Function, v ssa.Value, isSrc func(ssa.Value) b
 			}
 		}
 		if srcParam == nil {
+			for _, a := range call.Call.Args {
+				if whole(a) {
+					return false, "the helper that collects the operands is given only a part of the operand list (a re-slicing of it)"
+				}
+			}
 			return false, "the helper that collects the operands is not given the operand list"
 		}
 		for _, rv := range vals {
 			if isNilConst(rv) {
 				continue // error returns
 			}
-			if ok, why := elementLoopX(c, callee, rv, func(x ssa.Value) bool { return x == srcParam }, elemCall, depth+1, single); !ok {
+			// a function-typed parameter of the helper stands for what this call passes for it
+			inner := func(x ssa.Value) *ssa.Function {
+				p, isParam := x.(*ssa.Parameter)
+				if !isParam || p.Parent() != callee {
+					return nil
+				}
+				return funcValueOf(argFor(call, callee, p), fnOf)
+			}
+			if ok, why := elementLoopF(c, callee, rv, func(x ssa.Value) bool { return x == srcParam }, elemCall, depth+1, single, inner); !ok {
 				return false, why
 			}
 		}
@@ -1035,6 +1098,15 @@ func elementLoopX(c *Ctx, fn *ssa.Function, v ssa.Value, isSrc func(ssa.Value) b
 		ec = cl
 	}
 	elemV, ok := elemCall(ec)
+	if !ok && !ec.Call.IsInvoke() {
+		// the per-element call made through a function value: g(x) counts as the per-element call on x when every
+		// return of g hands back the result of that call on g's own parameter
+		if g := funcValueOf(ec.Call.Value, fnOf); g != nil {
+			if k, isPE := perElemFunc(g, elemCall, single); isPE && k < len(ec.Call.Args) {
+				elemV, ok = ec.Call.Args[k], true
+			}
+		}
+	}
 	if !ok {
 		return false, "what is appended is not an operand's evaluation result"
 	}
@@ -1043,6 +1115,9 @@ func elementLoopX(c *Ctx, fn *ssa.Function, v ssa.Value, isSrc func(ssa.Value) b
 		return false, "the evaluated operand is not an element of the operand list"
 	}
 	ia, ok := ld.X.(*ssa.IndexAddr)
+	if ok && whole(ia.X) && !isSrc(ia.X) {
+		return false, "the operand loop runs over a part of the operand list only (a re-slicing of it)"
+	}
 	if !ok || !isSrc(ia.X) {
 		return false, "the evaluated operand is not an element of the operand list"
 	}
@@ -1100,6 +1175,111 @@ func elementLoopX(c *Ctx, fn *ssa.Function, v ssa.Value, isSrc func(ssa.Value) b
 		return false, "the operand loop can be left with a successful return before every operand has been evaluated (" + c.w.ipos(p[len(p)-1]) + "): the remaining operands are not evaluated, so an error in one of them, e.g. an unknown column, is no longer reported"
 	}
 	return true, ""
+}
+
+// partOfList: v is a re-slicing x[lo:hi] (possibly of a re-slicing) that may leave elements of x out, i.e. lo is not
+// absent/0 or hi is not absent/len(x).
+func partOfList(v ssa.Value) bool {
+	for n := 0; n < 16; n++ {
+		sl, ok := peel(v).(*ssa.Slice)
+		if !ok {
+			return false
+		}
+		if sl.Low != nil {
+			if k, isK := constInt(sl.Low); !isK || k != 0 {
+				return true
+			}
+		}
+		if sl.High != nil && !isLenOf(sl.High, sl.X) {
+			return true
+		}
+		v = sl.X
+	}
+	return true
+}
+
+// funcValueOf resolves a function-typed value to the function it denotes: a function or method expression (for an
+// interface method that is the thunk ssa synthesises), a function literal (closure), or — through outer — a parameter
+// of the enclosing helper bound at the helper's call. nil if it is not known statically.
+func funcValueOf(v ssa.Value, outer func(ssa.Value) *ssa.Function) *ssa.Function {
+	if v == nil {
+		return nil
+	}
+	switch x := peel(v).(type) {
+	case *ssa.Function:
+		return x
+	case *ssa.MakeClosure:
+		g, _ := x.Fn.(*ssa.Function)
+		return g
+	case *ssa.Parameter:
+		if outer != nil {
+			return outer(x)
+		}
+	}
+	return nil
+}
+
+// perElemFunc: g is a per-element function for elemCall — every return of g hands back exactly the result(s) of one
+// per-element call (elemCall) made on one and the same parameter of g; its index is returned. Thunks of method
+// expressions (`Expression.cacheKey`: invoke the method on arg0 and return), one-line literals and named wrappers
+// qualify; a function that returns a constant, another method's result, or the key of something other than its
+// parameter on any path does not.
+func perElemFunc(g *ssa.Function, elemCall func(*ssa.Call) (ssa.Value, bool), single bool) (int, bool) {
+	if g == nil || g.Blocks == nil {
+		return -1, false
+	}
+	k, n, good := -1, 0, true
+	allInstrs(g, func(i ssa.Instruction) {
+		ret, isRet := i.(*ssa.Return)
+		if !isRet || isRecoverBlockReturn(ret) || !good {
+			return
+		}
+		n++
+		rv := retVals(ret)
+		var call *ssa.Call
+		if single {
+			if len(rv) != 1 {
+				good = false
+				return
+			}
+			call, _ = peel(rv[0]).(*ssa.Call)
+		} else {
+			for j, r := range rv {
+				e, isE := peel(r).(*ssa.Extract)
+				if !isE || e.Index != j {
+					good = false
+					return
+				}
+				cl, isCall := e.Tuple.(*ssa.Call)
+				if !isCall || (call != nil && cl != call) {
+					good = false
+					return
+				}
+				call = cl
+			}
+		}
+		if call == nil || call.Parent() != g {
+			good = false
+			return
+		}
+		el, isEl := elemCall(call)
+		if !isEl {
+			good = false
+			return
+		}
+		idx := -1
+		for j, p := range g.Params {
+			if peel(el) == ssa.Value(p) {
+				idx = j
+			}
+		}
+		if idx < 0 || (k >= 0 && k != idx) {
+			good = false
+			return
+		}
+		k = idx
+	})
+	return k, good && n > 0 && k >= 0
 }
 
 // keyInjRule: the bytes getValueIndex hashes determine (column, value). Two recognisable ways of breaking that are
